@@ -759,4 +759,8 @@ def main(tier, replay=None):
                        '--test-skip-device: disk and parity UUIDs are empty, so state_map does not rewrite UUIDs between load and save']
     if regen_msgs:
         chk.notes.append('translator: ' + '; '.join(regen_msgs))
+    if st['backward_clock_rewrite_changes_bytes']:
+        chk.notes.append('FINDING (C10_rewrite_reproduces_refuted) replayed on the binary %d times: a content file saved with the clock behind one of '
+                         'its info times is not reproduced byte for byte by test-rewrite at the same clock (the model predicts the new bytes; '
+                         'the second rewrite is a fixpoint; the decoded state is unchanged)' % st['backward_clock_rewrite_changes_bytes'])
     return chk.finish()
